@@ -66,6 +66,59 @@ CLAIMED = {
         "technique": "symbolic (Dolev-Yao) TLA+ model checked with TLC + TLC trace validation of files decrypted by a "
                      "spec-driven independent decryptor",
     },
+    "C13": {
+        "domains": ["saveatomic"],
+        "text": "TLC checks the save protocol (SaveAtomic.tla) for every chunking of 1..3 (thorough 1..4) chunks around the "
+                "buffer, every result (ok / short by any amount / error) of every system call and a kill in every state: the "
+                "destination is always the complete old or complete new file, Ok implies complete new, no panic, a failing "
+                "writer's error is returned; three deviant designs (errors dropped with the writer, unwrap, in-place write) "
+                "must violate it. Every save of the real library (xlsx, light, csv, write_with_password(_light), "
+                "set_password) runs in a child process under strace with real faults (RLIMIT_FSIZE at byte k around "
+                "4096/8192/file size, injected errors at every write/rename/unlink/close index, unwritable directory, SIGKILL "
+                "before every system call, thorough: at random instants; failing io::Write sinks at every call index with and "
+                "without partial writes); TLC replays the disk from the system-call log with the specification's own "
+                "operators, evaluates NeverTorn after every call and AllOrNothing/ErrorNotPanic at return, and the replayed "
+                "disk must equal the real directory.",
+        "note": TRUST + ", strace's log and fault injection, the kernel's RLIMIT_FSIZE, pydec/strace_events.py (projection), "
+                        "pydec/pwfile_check.py + pydec/cfb.py (classification of password-protected files). Crash model = process "
+                        "kill (no fsync demanded). 'Complete new' = every byte a fault-free save writes. Only the property's "
+                        "predicates are judged, not which calls the library makes.",
+        "technique": "explicit TLA+ spec model-checked with TLC (all fault sequences and crash points); TLC-enumerated fault "
+                     "plans realised with RLIMIT_FSIZE / strace injection / SIGKILL on child processes; syscall traces "
+                     "validated by TLC",
+    },
+    "C15": {
+        "domains": ["pwdhash"],
+        "text": "TLC checks PwdHash.tla exhaustively: the spin loop equals the standard's recursion and the closed verifier "
+                "term; a verifier verifies its own password and no other; salts are fresh; the legacy attribute is removed; no "
+                "password atom is exposed; everything survives save/load. The same verifier term, emitted by TLC as JSON, is "
+                "evaluated with real SHA-512 for every recorded set_password / set_workbook_password / set_revisions_password "
+                "call and for every saved file; TLC judges each event (hash reproduces for the password and not for "
+                "near-variants, salt never seen before incl. across processes, legacy attribute absent, clear password absent "
+                "from every part, verifier after eager and lazy reload equals the one set) for empty/ASCII/XML-special/"
+                "non-BMP/255..1000-character/random Unicode passwords, both writers, new workbooks and protected corpus files.",
+        "note": TRUST + ", hashlib/base64/UTF-16 codecs, the term evaluator pydec/pwdhash_eval.py (sanity-checked in every run "
+                        "against three verifiers Excel wrote for 'password' in the corpus), zipfile + expat. 'Any other password' is "
+                        "sampled (2-3 near-variants per call). The empty password is not searched for as clear text.",
+        "technique": "symbolic TLA+ model of the hash (free term algebra) checked by TLC + TLC trace validation with "
+                     "spec-emitted terms evaluated by hashlib",
+    },
+    "C20": {
+        "domains": ["csv"],
+        "text": "TLC checks on every sheet of the bounded scopes that the intended writer, fed character by character into an "
+                "RFC-4180 reader, yields exactly Grid(active sheet, options) in every intermediate and final state (up to 3 "
+                "cells in 3x3 windows, 10 value classes, every text of length <= 3 over {a , \" ' CR LF SP}, 3 sheets), for all "
+                "trim x wrap options and all 10 encodings as symbolic terms; the unescaped writer must be refuted. The real "
+                "write_writer is driven on every TLC-enumerated history, on boundary sheets per encoding and on seeded random "
+                "sheets; its bytes are decoded with the selected encoding and read as CSV; TLC compares the grid read back "
+                "with the grid the specification computes from the workbook and options.",
+        "note": TRUST + ", Python's codecs as the definition of each encoding, pydec/csvparse.py (re-checked against the "
+                        "specification's reader by TLC on every export). Texts use ASCII plus mainstream letters of the encoding's "
+                        "script. Reader conventions: delimiter ',', quote = wrap character (none: quoting disabled), CRLF/CR/LF "
+                        "end a record, an empty line is one record with one empty field. 'used' = cell with non-empty value text.",
+        "technique": "explicit TLA+ spec (Csv.tla: writer/reader state machine) model-checked with TLC + TLC trace validation "
+                     "of recorded write_writer exports",
+    },
 }
 
 NOT_CLAIMED = {}
